@@ -51,7 +51,8 @@ type world struct {
 	big    bool
 	huge   int // 0 = no; 1..4 = values beyond the int64 range (see hugePools)
 	// "" = ordinary; "extreme" = magnitudes near overflow/underflow, signed zeros, cancelling values;
-	// "malformed" = general decimals plus tokens parseNum rejects. Only float cases are emitted for these.
+	// "malformed" = general decimals plus tokens parseNum rejects; "repeats" = few general decimals and few groups
+	// (a field token occurs several times in one bin: InsertNTimes with cnt > 1). Only float cases are emitted for these.
 	fkind string
 }
 
@@ -192,10 +193,7 @@ func genWorld(seed uint64, idx int, tier string) *world {
 	}
 	if idx%10 == 3 && !w.big {
 		w.exact = false
-		w.fkind = "extreme"
-		if (idx/10)%2 == 1 {
-			w.fkind = "malformed"
-		}
+		w.fkind = []string{"extreme", "malformed", "repeats"}[(idx/10)%3]
 	}
 	// value pool (few distinct tokens in a big world)
 	pool := make([]string, 0)
@@ -208,6 +206,9 @@ func genWorld(seed uint64, idx int, tier string) *world {
 	}
 	if w.fkind != "" {
 		np = r.Range(0, 4)
+	}
+	if w.fkind == "repeats" {
+		np = r.Range(2, 4) // few distinct general decimals, few groups: field tokens repeat inside a bin (cnt > 1)
 	}
 	for i := 0; i < np; i++ {
 		if w.exact {
@@ -260,6 +261,14 @@ func genWorld(seed uint64, idx int, tier string) *world {
 		}
 		if !w.big && !r.Chance(missV, 10) {
 			d.f["w"] = rng.Pick(r, pool[:r.Range(1, len(pool))])
+		}
+		if w.fkind == "repeats" {
+			if _, ok := d.f["g"]; ok {
+				d.f["g"] = groupNames["g"][i%2]
+			}
+			if _, ok := d.f["h"]; ok {
+				d.f["h"] = groupNames["h"][(i/2)%2]
+			}
 		}
 		fi := r.Intn(nf)
 		w.fracs[fi] = append(w.fracs[fi], d)
@@ -381,9 +390,12 @@ func genSearch(r *rng.R, w *world) searchSpec {
 }
 
 // floatOnlySearch: one aggregation over a numeric field, no histogram (extreme / malformed worlds)
-func floatOnlySearch(s searchSpec) searchSpec {
+func floatOnlySearch(s searchSpec, w *world, si int) searchSpec {
 	s.hist = 0
 	a := s.aggs[0]
+	if w.fkind == "repeats" && a.group == "" && si%3 != 0 {
+		a.group = "g"
+	}
 	if a.field == "" {
 		a.fn, a.field = seq.AggFuncSum, "v"
 	}
@@ -1163,7 +1175,7 @@ func runWorld(seed uint64, idx int, tier string, nsearch int, only func(search, 
 	for si := 0; si < nsearch; si++ {
 		s := genSearch(r, w)
 		if w.fkind != "" {
-			s = floatOnlySearch(s)
+			s = floatOnlySearch(s, w, si)
 		}
 		rs := r.Fork()
 		var o func(int, int) bool
